@@ -339,30 +339,11 @@ Proof.
   2:{ destruct e; try discriminate H. }
   inversion H; subst w2 v0 o; clear H.
   pose proof (exec_query_strict (QRead p HASH) w w1 _ E) as (_ & F1 & _).
-  cbn [exec_query] in E. unfold m_read in E.
-  apply bind_inv in E. destruct E as [(wa & nr & E1 & E) | (e & _ & E)]; [|discriminate E].
-  apply (is_file_no_read_pending_cf _ _ _ _ _ (cfo_ok_None _)) in E1. destruct E1 as [-> _].
-  apply bind_inv in E. destruct E as [(wb & u & E2 & E) | (e & _ & E)]; [|discriminate E].
-  assert (S2 : hsame w wb) by (refine ((_ : pres HSPO _) w wb _ E2); destruct nr as [[|]|]; pres_auto).
-  destruct S2 as (_ & F2 & N2 & H2).
-  assert (Hokb : HashOk wb).
-  { intros q h b f Hg Hb Hl. rewrite H2 in Hg. rewrite N2 in Hb. rewrite F2 in Hl. eapply Hok; eauto. }
-  apply bind_inv in E. destruct E as [(wc & res & E3 & E) | (e & _ & E)]; [|discriminate E].
-  apply bind_inv in E. destruct E as [(wd & u' & E4 & E) | (e & _ & E)]; [|discriminate E].
-  inversion E; subst wd res; clear E.
-  apply catch_inv in E3. destruct E3 as [(a & E3 & Ea) | (we & e & E3 & E5)].
-  - inversion Ea; subst a. cbn [file_comparison_result] in E3.
-    destruct (file_hash_spec p wb wc _ Hokb E3) as (_ & F3 & _ & S).
-    rewrite F2 in S. destruct (lookup (w_fs w) p) as [[fl|]|] eqn:El.
-    + inversion S; subst v. exists fl. split; [reflexivity|]. split; [rewrite F1; exact El|].
-      split; [reflexivity|]. split; [reflexivity|].
-      unfold user_answer, canon_err. rewrite F1, El. reflexivity.
-    + discriminate S.
-    + destruct S as [e S]. discriminate S.
-  - exfalso. destruct (is_os_class XFileNotFound e || is_os_class XNotADirectory e); [discriminate E5|].
-    destruct (is_os_class XIsADirectory e); [|discriminate E5].
-    apply bind_inv in E5. destruct E5 as [(wf & d & _ & E5) | (e' & _ & E5)]; [|discriminate E5].
-    destruct d; discriminate E5.
+  cbn [exec_query] in E.
+  destruct (m_read_hash_result p None w w1 v Hok E) as (fl & El & ->).
+  exists fl. split; [exact El|]. split; [rewrite F1; exact El|].
+  split; [reflexivity|]. split; [reflexivity|].
+  unfold user_answer, canon_err. rewrite F1, El. reflexivity.
 Qed.
 
 (* ... at every such read of every program: the step [run] takes *)
